@@ -47,6 +47,49 @@ struct verif_atomic {
 	operator T() const { return load(); }
 	T operator=(T v) { store(v); return v; }
 };
+// std::atomic_flag and std::atomic_ref<T>, interposed with  #define atomic_flag verif_atomic_flag  /  #define atomic_ref verif_atomic_ref
+struct verif_atomic_flag {
+	std::atomic_flag f;
+	mutable vclock::Rel hb;
+	constexpr verif_atomic_flag() noexcept : f{}, hb{} {}
+	constexpr verif_atomic_flag(int) noexcept : f{}, hb{} {}          // ATOMIC_FLAG_INIT
+	verif_atomic_flag(const verif_atomic_flag &) = delete;
+	verif_atomic_flag &operator=(const verif_atomic_flag &) = delete;
+	bool test_and_set(std::memory_order mo = std::memory_order_seq_cst) noexcept { dsched::point_rmw(); hb.on_rmw(mo); vclock::mirror_write(&f, mo); bool r = f.test_and_set(mo); vclock::mirror_read(&f, mo); vclock::note_rmw(); return r; }
+	void clear(std::memory_order mo = std::memory_order_seq_cst) noexcept { dsched::point(); hb.on_store(mo); vclock::mirror_write(&f, mo); f.clear(mo); }
+	bool test(std::memory_order mo = std::memory_order_seq_cst) const noexcept { dsched::point(); bool r = f.test(mo); hb.on_load(mo); vclock::mirror_read(&f, mo); return r; }
+	void wait(bool old, std::memory_order mo = std::memory_order_seq_cst) const noexcept { while(test(mo) == old) dsched::spin_yield(); }
+	void notify_one() noexcept {}
+	void notify_all() noexcept {}
+};
+template<typename T>
+struct verif_atomic_ref {
+	std::atomic_ref<T> r; T *p;
+	using value_type = T;
+	static constexpr bool is_always_lock_free = std::atomic_ref<T>::is_always_lock_free;
+	static constexpr size_t required_alignment = std::atomic_ref<T>::required_alignment;
+	explicit verif_atomic_ref(T &x) noexcept : r(x), p(&x) {}
+	verif_atomic_ref(const verif_atomic_ref &) noexcept = default;
+	bool is_lock_free() const noexcept { return r.is_lock_free(); }
+	T load(std::memory_order mo = std::memory_order_seq_cst) const noexcept { dsched::point(); T v = r.load(mo); vclock::rel_of(p).on_load(mo); vclock::mirror_read(p, mo); return v; }
+	void store(T v, std::memory_order mo = std::memory_order_seq_cst) const noexcept { dsched::point(); vclock::rel_of(p).on_store(mo); vclock::mirror_write(p, mo); r.store(v, mo); }
+#define VERIF_REF_RMW(name) T name(T v, std::memory_order mo = std::memory_order_seq_cst) const noexcept { dsched::point_rmw(); vclock::rel_of(p).on_rmw(mo); vclock::mirror_write(p, mo); T o = r.name(v, mo); vclock::mirror_read(p, mo); vclock::note_rmw(); return o; }
+	VERIF_REF_RMW(exchange) VERIF_REF_RMW(fetch_add) VERIF_REF_RMW(fetch_sub) VERIF_REF_RMW(fetch_or) VERIF_REF_RMW(fetch_and) VERIF_REF_RMW(fetch_xor)
+#undef VERIF_REF_RMW
+	bool compare_exchange_strong(T &e, T d, std::memory_order s, std::memory_order f) const noexcept { dsched::point_rmw(); vclock::mirror_write(p, s); bool ok = r.compare_exchange_strong(e, d, s, f); if(ok) { vclock::rel_of(p).on_rmw(s); vclock::mirror_read(p, s); vclock::note_rmw(); } else { vclock::rel_of(p).on_load(f); vclock::mirror_read(p, f); } return ok; }
+	bool compare_exchange_weak(T &e, T d, std::memory_order s, std::memory_order f) const noexcept { return compare_exchange_strong(e, d, s, f); }
+	bool compare_exchange_strong(T &e, T d, std::memory_order m = std::memory_order_seq_cst) const noexcept { return compare_exchange_strong(e, d, m, verif_atomic<T>::fail_order(m)); }
+	bool compare_exchange_weak(T &e, T d, std::memory_order m = std::memory_order_seq_cst) const noexcept { return compare_exchange_strong(e, d, m, verif_atomic<T>::fail_order(m)); }
+	operator T() const noexcept { return load(); }
+	T operator=(T v) const noexcept { store(v); return v; }
+	T operator++() const noexcept { return fetch_add(1) + 1; }
+	T operator++(int) const noexcept { return fetch_add(1); }
+	T operator--() const noexcept { return fetch_sub(1) - 1; }
+	T operator--(int) const noexcept { return fetch_sub(1); }
+	T operator+=(T v) const noexcept { return fetch_add(v) + v; }
+	T operator-=(T v) const noexcept { return fetch_sub(v) - v; }
+};
+template<typename T> verif_atomic_ref(T &) -> verif_atomic_ref<T>;
 // std::atomic_thread_fence, interposed with  #define atomic_thread_fence verif_atomic_thread_fence  (verif_atomic_begin.hpp)
 inline void verif_atomic_thread_fence(std::memory_order mo) noexcept { dsched::point(); std::atomic_thread_fence(mo); vclock::on_fence(mo); vclock::mirror_fence(mo); }
 inline void verif_atomic_signal_fence(std::memory_order mo) noexcept { std::atomic_signal_fence(mo); }
